@@ -291,6 +291,13 @@ def addClient (s : Sys) (epoch : Int) (caller client : Nat) (allowance : Int) : 
         let s1 := { s with vr := { s.vr with verifiers := aset caller (cap - allowance) s.vr.verifiers } }
         dcMint s1 epoch verifregId client (toTokens allowance) [marketId]
 
+/-- the tail of `remove_verified_client_data_cap`: `destroy` (skipped when zero) -/
+def destroyUpTo (s : Sys) (client : Nat) (burnt : Int) : Except Err (Sys × Ret) :=
+  if burnt = 0 then .ok (s, { amounts := [0] })
+  else match dcDestroy s verifregId client (toTokens burnt) with
+    | .error e => .error e
+    | .ok s' => .ok (s', { amounts := [burnt] })
+
 /-- `remove_verified_client_data_cap`; `sig1Ok`/`sig2Ok` are the answers of the verifiers'
     `AuthenticateMessage` for the proposals with the current proposal ids (environment). -/
 def removeClientDataCap (s : Sys) (caller client v1 v2 : Nat) (sig1Ok sig2Ok : Bool)
@@ -305,12 +312,8 @@ def removeClientDataCap (s : Sys) (caller client v1 v2 : Nat) (sig1Ok sig2Ok : B
   else if !sig1Ok then .error .illegalArgument
   else if !sig2Ok then .error .illegalArgument
   else
-    let b := toDatacap (Datacap.bal s.dc client)
-    let burnt := if b < amount then b else amount
-    if burnt = 0 then .ok (s, { amounts := [0] })
-    else match dcDestroy s verifregId client (toTokens burnt) with
-      | .error e => .error e
-      | .ok s' => .ok (s', { amounts := [burnt] })
+    destroyUpTo s client
+      (if toDatacap (Datacap.bal s.dc client) < amount then toDatacap (Datacap.bal s.dc client) else amount)
 
 /-! #### claim_allocations -/
 
